@@ -551,6 +551,11 @@ theorem condorcet_single (atBottom : Bool) (U : List Cand) (hU : U.Nodup) (b : B
   refine ⟨?_, mem_condPairs atBottom U b x y⟩
   rw [(condorcet_sum atBottom U).single, cnt_condPairs atBottom hU hb]
 
+/-- "ranks x above y" means: x stands at an earlier place than y -/
+theorem above_iff_earlier_place (b : Ballot) (x y : Cand) :
+    Above b x y ↔ ∃ (i j : Nat), i < j ∧ ∃ (it it' : RankItem),
+      b[i]? = some it ∧ b[j]? = some it' ∧ x ∈ it.cands ∧ y ∈ it'.cands := above_iff_index b x y
+
 /-- **the two opposite pairwise counts of a pair never sum to more than the number of ballots**
     (duplicate-free ballots, non-negative weights; `x = y` included: a candidate never beats itself) -/
 theorem pairwise_le_total (atBottom : Bool) (U : List Cand) (hU : U.Nodup) (p : RProfile)
@@ -560,6 +565,16 @@ theorem pairwise_le_total (atBottom : Bool) (U : List Cand) (hU : U.Nodup) (p : 
   apply wsum_le_wsum hw
   intro bw hbw
   exact cnt_condPairs_le_one atBottom hU (hb bw hbw) x y
+
+/-- the same for the dict `A + B` of two profiles: the bound is by the total weight of both halves -/
+theorem pairwise_le_total_merged (atBottom : Bool) (U : List Cand) (hU : U.Nodup) (p₁ p₂ : RProfile)
+    (hb : ∀ bw ∈ p₁ ++ p₂, (ballotCands bw.1).Nodup) (hw : ∀ bw ∈ p₁ ++ p₂, 0 ≤ bw.2) (x y : Cand) :
+    toFun (condorcetU atBottom U (mergeDict (p₁ ++ p₂))) (x, y) + toFun (condorcetU atBottom U (mergeDict (p₁ ++ p₂))) (y, x)
+      ≤ total p₁ + total p₂ := by
+  rw [(condorcet_sum atBottom U).merged, (condorcet_sum atBottom U).merged]
+  have := pairwise_le_total atBottom U hU (p₁ ++ p₂) hb hw x y
+  have ht : total (p₁ ++ p₂) = total p₁ + total p₂ := by simp [total]
+  rw [ht] at this; exact this
 
 /-- the same for the converter as called -/
 theorem rankedToCondorcet_pairwise_le_total (atBottom : Bool) (p : RProfile)
